@@ -234,6 +234,16 @@ func includeLabel(s Source, names ...string) Source {
 	return s
 }
 
+// Include labels used for vector matching, but only these that the source can actually have.
+func includeMatchingLabels(s Source, names ...string) Source {
+	for _, name := range names {
+		if s.CanHaveLabel(name) {
+			s = includeLabel(s, name)
+		}
+	}
+	return s
+}
+
 // Include labels that were not already excluded.
 func maybeIncludeLabel(s Source, names ...string) Source {
 	for _, name := range names {
@@ -728,8 +738,8 @@ func parseBinOps(expr string, n *promParser.BinaryExpr) (src []Source) {
 		rhs := walkNode(expr, n.RHS)
 		for _, s = range walkNode(expr, n.LHS) {
 			if n.VectorMatching.On {
+				s = includeMatchingLabels(s, n.VectorMatching.MatchingLabels...)
 				s.FixedLabels = true
-				s = includeLabel(s, n.VectorMatching.MatchingLabels...)
 				s = restrictIncludedLabels(s, n.VectorMatching.MatchingLabels)
 				s = restrictGuaranteedLabels(s, n.VectorMatching.MatchingLabels)
 				s = excludeAllLabels(
@@ -790,7 +800,7 @@ func parseBinOps(expr string, n *promParser.BinaryExpr) (src []Source) {
 			// foo * on(instance) group_left(a,b) bar{x="y"}
 			// then only group_left() labels will be included.
 			if n.VectorMatching.On {
-				s = includeLabel(s, n.VectorMatching.MatchingLabels...)
+				s = includeMatchingLabels(s, n.VectorMatching.MatchingLabels...)
 			}
 			if s.Operation == "" {
 				s.Operation = n.VectorMatching.Card.String()
@@ -816,7 +826,7 @@ func parseBinOps(expr string, n *promParser.BinaryExpr) (src []Source) {
 		for _, s = range walkNode(expr, n.LHS) {
 			s = includeLabel(s, n.VectorMatching.Include...)
 			if n.VectorMatching.On {
-				s = includeLabel(s, n.VectorMatching.MatchingLabels...)
+				s = includeMatchingLabels(s, n.VectorMatching.MatchingLabels...)
 			}
 			if s.Operation == "" {
 				s.Operation = n.VectorMatching.Card.String()
@@ -844,7 +854,7 @@ func parseBinOps(expr string, n *promParser.BinaryExpr) (src []Source) {
 		for _, s = range walkNode(expr, n.LHS) {
 			var rhsConditional bool
 			if n.VectorMatching.On {
-				s = includeLabel(s, n.VectorMatching.MatchingLabels...)
+				s = includeMatchingLabels(s, n.VectorMatching.MatchingLabels...)
 			}
 			if s.Operation == "" {
 				s.Operation = n.VectorMatching.Card.String()
